@@ -74,6 +74,31 @@ CLAIMED = {
             "batch, other rows bit-identical. Exploration.",
             "duplicated pairs count once per listing; indices in training are sample positions 0..n-1",
             "DESIGN.md section 3, C14"),
+    "C08": ("property-based testing (Hypothesis): differential against a brute-force enumeration of all admissible splits "
+            "with real objective increases, on every variant of the extension (imported .so, rebuilt .cpp, translated .pyx)",
+            "Generated intermediate tree states (ties, indefinite kernels, cluster limits) and every find_best_split call "
+            "of real fits are judged by a brute force: the returned gain must be the real increase of the returned split "
+            "and the maximum over all admissible alternatives; fits must stop only when nothing positive is left or a "
+            "limit binds, and root score + recorded gains must equal the final score. Known findings D12/D13 are "
+            "recognised by exact emulation only, excluded and counted. Exploration.",
+            "gains compared to 1e-9*max(1,n*max|K|), arg-max not compared; the .pyx is checked through a translated twin "
+            "(no Cython in the sandbox); d<=n in generated states",
+            "DESIGN.md sections 0.1, 0.2 and 3, C08"),
+    "C09": ("property-based testing (Hypothesis) of fitted trees against structural invariants and a leaf-region reference",
+            "Real fits over all limit combinations, kernels and seeds: leaf/depth/cluster limits, contiguous labels, "
+            "min_samples_leaf / min_samples_split at every node (root included), observed thresholds, one target per leaf, "
+            "2*leaves-1 nodes, candidate feature subsets, predict(train)==labels_, new points labelled by the "
+            "hyper-rectangle that contains them, score == objective of predicted labels; every extension variant. "
+            "Exploration.",
+            "regions derived leaf by leaf from path constraints; query points include exact thresholds and next floats",
+            "DESIGN.md section 3, C09"),
+    "C19": ("property-based round-trip testing (Hypothesis): print -> recursive-descent parse -> evaluate == predict",
+            "For generated fitted trees and feature-name lists the printed text is parsed back into nested threshold "
+            "rules and evaluated on query points (thresholds included); it must agree with predict, label features by "
+            "index, reject name lists that cannot name a used feature, and refuse unfitted / foreign objects. "
+            "Exploration.",
+            "names never contain ' <= ' / ' > ' / line breaks; any exception counts as a refusal",
+            "DESIGN.md section 3, C19"),
 }
 
 NOT_YET = {}
